@@ -156,6 +156,34 @@ def r2_same_wiring(ctx):
             ctx.bad("cli|stdin-validation|per-chunk", g.where(d.block), "run_stdin validates UTF-8 inside the read loop (per chunk): a valid script with a multi-byte character on a chunk boundary is refused on stdin but accepted from a file")
         else:
             ctx.ok("cli|stdin-validation|whole-buffer#%d" % d.block, g.where(d.block), "validated once after the read loop")
+    # ... and the reading loop is left towards running the program only when a read returned nothing: a read that returns
+    # fewer bytes than were asked for says nothing about the end of the input (a pipe delivers what it has), so ending on a
+    # short read makes the first piece the whole program - and the rest of the script is later served to read_line
+    from .c03 import natural_loop
+    rd = [c for c in g.calls() if (c.callee or "").split("::")[-1] == "read" and "io" in (c.callee or "")]
+    runs = g.calls_to("cmd::run_source")
+    if rd and runs:
+        loops = [natural_loop(g, H) for H in sorted(g.live) if natural_loop(g, H) and rd[0].block in natural_loop(g, H)]
+        if loops:
+            nl = min(loops, key=len)
+            exits_ok, why = True, ""
+            for b in sorted(nl):
+                for lab, j in g.succ[b]:
+                    if j in nl or not (runs[0].block in g.reach([j])):
+                        continue
+                    # an exit towards run_source: what decides it?
+                    t = g.blocks[b]["t"]
+                    if t["k"] != "switch":
+                        continue
+                    d = sh(ne(g.deep(t["d"], 10))).replace(" ", "")
+                    si = g.switch_info(b)
+                    zero = (si["kind"] in ("place", "field", "copy") or "read(" in d) and lab == 0 and "Lt(" not in d and "Le(" not in d and "len(" not in d
+                    if not zero:
+                        exits_ok, why = False, d[:60]
+            if exits_ok:
+                ctx.ok("cli|stdin-read-to-the-end", g.where(rd[0].block), "the loop ends when read() returns 0")
+            else:
+                ctx.bad("cli|stdin-read-to-the-end|%s" % why[:24], g.where(rd[0].block), "run_stdin stops reading on `%s`, not only when a read returns 0: when the script arrives in pieces only the first piece is run, and the rest of its text is what the program's read_line calls receive" % why)
     # wasm front end: not type-checkable on this host (cfg(target_family = "wasm"), no wasm32 std) -> lexical
     (w, body) = wasm_sequence(ctx.repo)
     if w is None:
